@@ -412,3 +412,963 @@ theorem invA_step {S : Scheds} {s s' : State} {l : Label} (hA : InvA s)
     obtain ⟨_, rfl⟩ := step_ctxWait_inv h
     exact ⟨h1, h2, h3, h4, h5, h6, h7⟩
 end Kit.CronSched
+
+namespace Kit.CronSched
+
+/-- What a record must satisfy given the previous record of the same entry. -/
+def RecOK (S : Scheds) (r : Rec) (prev : Option Rec) : Prop :=
+  match r with
+  | .sched _ sid t a => a = S sid t ∧ ∀ p, prev = some p → p.sid = sid ∧ p.basis ≤ t
+  | .run _ sid a w c => ∃ p, prev = some p ∧ p.sid = sid ∧ a = S sid p.basis ∧ a ≠ 0 ∧ a ≤ w ∧ w ≤ c
+
+/-- The activation chain: every record is justified by the previous record of the same entry. -/
+def ChainOK (S : Scheds) : List Rec → Prop
+  | [] => True
+  | r :: older => RecOK S r (lastRec r.id older) ∧ ChainOK S older
+
+theorem lastRec_none_of_lt {id : Nat} {log : List Rec} (h : ∀ r ∈ log, r.id < id) :
+    lastRec id log = none := by
+  unfold lastRec
+  rw [List.find?_eq_none]
+  intro r hr
+  have := h r hr
+  simp; omega
+
+theorem lastRunAct_zero_of_lt {id : Nat} {log : List Rec} (h : ∀ r ∈ log, r.id < id) :
+    lastRunAct id log = 0 := by
+  unfold lastRunAct
+  have : log.find? (fun r => r.isRun && r.id == id) = none := by
+    rw [List.find?_eq_none]
+    intro r hr
+    have := h r hr
+    simp; intro _; omega
+  rw [this]
+
+theorem find_id_of_nodup {es : List Entry} {e : Entry} (hn : (es.map (·.id)).Nodup) (he : e ∈ es) :
+    es.find? (fun x => x.id == e.id) = some e := by
+  induction es with
+  | nil => cases he
+  | cons x xs ih =>
+    simp only [List.map_cons, List.nodup_cons] at hn
+    simp only [List.find?_cons]
+    rcases List.mem_cons.1 he with rfl | he'
+    · simp
+    · have hne : x.id ≠ e.id := by
+        intro heq
+        exact hn.1 (heq ▸ List.mem_map_of_mem he')
+      have hb : (x.id == e.id) = false := by simp [hne]
+      simp [hb, ih hn.2 he']
+
+theorem find_id_none {es : List Entry} {id : Nat} (h : ∀ e ∈ es, e.id ≠ id) :
+    es.find? (fun x => x.id == id) = none := by
+  rw [List.find?_eq_none]
+  intro e he
+  simpa using h e he
+
+theorem lastRec_map_append (f : Entry → Rec) (hf : ∀ e, (f e).id = e.id) (es : List Entry)
+    (log : List Rec) (id : Nat) :
+    lastRec id (es.map f ++ log) =
+      match es.find? (fun e => e.id == id) with
+      | some e => some (f e)
+      | none => lastRec id log := by
+  induction es with
+  | nil => simp [lastRec]
+  | cons x xs ih =>
+    simp only [List.map_cons, List.cons_append, lastRec, List.find?_cons, hf]
+    by_cases hx : x.id = id
+    · simp [hx]
+    · have hb : (x.id == id) = false := by simp [hx]
+      simp only [lastRec] at ih
+      simp [hb, ih]
+
+theorem chainOK_map_append (S : Scheds) (f : Entry → Rec) (hf : ∀ e, (f e).id = e.id)
+    (es : List Entry) (log : List Rec) (hn : (es.map (·.id)).Nodup) (hc : ChainOK S log)
+    (hok : ∀ e ∈ es, RecOK S (f e) (lastRec e.id log)) : ChainOK S (es.map f ++ log) := by
+  induction es with
+  | nil => simpa using hc
+  | cons x xs ih =>
+    simp only [List.map_cons, List.nodup_cons] at hn
+    simp only [List.map_cons, List.cons_append, ChainOK, hf]
+    refine ⟨?_, ih hn.2 (fun e he => hok e (List.mem_cons_of_mem _ he))⟩
+    rw [lastRec_map_append f hf xs log x.id, find_id_none]
+    · exact hok x (List.mem_cons_self)
+    · intro e he heq
+      exact hn.1 (heq ▸ List.mem_map_of_mem he)
+
+@[simp] theorem runRec_isRun (v c : Nat) (e : Entry) : (runRec v c e).isRun = true := rfl
+@[simp] theorem runRec_id (v c : Nat) (e : Entry) : (runRec v c e).id = e.id := rfl
+@[simp] theorem runRec_sid (v c : Nat) (e : Entry) : (runRec v c e).sid = e.sid := rfl
+@[simp] theorem runRec_act (v c : Nat) (e : Entry) : (runRec v c e).act = e.next := rfl
+@[simp] theorem runRec_basis (v c : Nat) (e : Entry) : (runRec v c e).basis = v := rfl
+@[simp] theorem schedRec_isRun (t : Nat) (e : Entry) : (schedRec t e).isRun = false := rfl
+@[simp] theorem schedRec_id (t : Nat) (e : Entry) : (schedRec t e).id = e.id := rfl
+@[simp] theorem schedRec_sid (t : Nat) (e : Entry) : (schedRec t e).sid = e.sid := rfl
+@[simp] theorem schedRec_basis (t : Nat) (e : Entry) : (schedRec t e).basis = t := rfl
+
+theorem lastRunAct_cons (r : Rec) (log : List Rec) (id : Nat) :
+    lastRunAct id (r :: log) = if r.isRun && r.id == id then r.act else lastRunAct id log := by
+  unfold lastRunAct
+  simp only [List.find?_cons]
+  cases h : (r.isRun && r.id == id) <;> simp
+
+theorem lastRunAct_runs (v c : Nat) (es : List Entry) (log : List Rec) (id : Nat) :
+    lastRunAct id (es.map (runRec v c) ++ log) =
+      match es.find? (fun e => e.id == id) with
+      | some e => e.next
+      | none => lastRunAct id log := by
+  induction es with
+  | nil => simp
+  | cons x xs ih =>
+    simp only [List.map_cons, List.cons_append, lastRunAct_cons, List.find?_cons, runRec_isRun,
+      runRec_id, runRec_act, Bool.true_and]
+    cases hb : (x.id == id)
+    · simpa using ih
+    · simp
+
+theorem lastRunAct_scheds (t : Nat) (es : List Entry) (log : List Rec) (id : Nat) :
+    lastRunAct id (es.map (schedRec t) ++ log) = lastRunAct id log := by
+  induction es with
+  | nil => simp
+  | cons x xs ih =>
+    simp only [List.map_cons, List.cons_append, lastRunAct_cons, schedRec_isRun, Bool.false_and]
+    simpa using ih
+
+/-- Chain invariant. -/
+structure InvB (S : Scheds) (s : State) : Prop where
+  chain : ChainOK S s.log
+  basis_le : ∀ r ∈ s.log, r.basis ≤ s.clock
+  sid_ok : ∀ e ∈ s.entries, ∀ r, lastRec e.id s.log = some r → r.sid = e.sid
+  next_ok : live s.pc = true → ∀ e ∈ s.entries, ∃ r, lastRec e.id s.log = some r ∧ e.next = S e.sid r.basis
+  prev_ok : ∀ e ∈ s.entries, e.prev = lastRunAct e.id s.log
+
+theorem invB_init (S : Scheds) (t0 : Nat) : InvB S (init t0) := by
+  constructor <;> simp [init, ChainOK, live]
+
+theorem invB_frame {S : Scheds} {s s' : State} (hB : InvB S s) (hlog : s'.log = s.log)
+    (hent : ∀ e ∈ s'.entries, e ∈ s.entries) (hclk : s.clock ≤ s'.clock)
+    (hlive : live s'.pc = true → live s.pc = true) : InvB S s' := by
+  obtain ⟨b1, b2, b3, b4, b5⟩ := hB
+  refine ⟨hlog ▸ b1, ?_, ?_, ?_, ?_⟩
+  · intro r hr; rw [hlog] at hr; exact Nat.le_trans (b2 r hr) hclk
+  · intro e he r hr; rw [hlog] at hr; exact b3 e (hent e he) r hr
+  · intro hl e he; rw [hlog]; exact b4 (hlive hl) e (hent e he)
+  · intro e he; rw [hlog]; exact b5 e (hent e he)
+end Kit.CronSched
+
+namespace Kit.CronSched
+
+theorem lastRec_cons (r : Rec) (log : List Rec) (id : Nat) :
+    lastRec id (r :: log) = if r.id == id then some r else lastRec id log := by
+  unfold lastRec
+  simp only [List.find?_cons]
+  cases h : (r.id == id) <;> simp
+
+theorem lastRec_mem {id : Nat} {log : List Rec} {r : Rec} (h : lastRec id log = some r) :
+    r ∈ log ∧ r.id = id := by
+  unfold lastRec at h
+  exact ⟨List.mem_of_find?_eq_some h, by simpa using List.find?_some h⟩
+
+theorem wakeLoop_ran {S : Scheds} {v : Nat} {l : List Entry} :
+    ∀ e ∈ (wakeLoop S v l).2, e ∈ l ∧ e.next ≠ 0 ∧ e.next ≤ v := by
+  induction l with
+  | nil => simp [wakeLoop]
+  | cons x xs ih =>
+    simp only [wakeLoop]
+    split
+    · simp
+    · rename_i hc
+      intro e he
+      rcases List.mem_cons.1 he with rfl | he'
+      · refine ⟨List.mem_cons_self, ?_, ?_⟩ <;> omega
+      · obtain ⟨a, b, c⟩ := ih e he'
+        exact ⟨List.mem_cons_of_mem _ a, b, c⟩
+
+theorem wakeLoop_spec {S : Scheds} {v : Nat} {l : List Entry} (hn : (l.map (·.id)).Nodup) :
+    ∀ e' ∈ (wakeLoop S v l).1,
+      (e' ∈ l ∧ ∀ r ∈ (wakeLoop S v l).2, r.id ≠ e'.id) ∨
+      (∃ e ∈ (wakeLoop S v l).2, e' = { e with prev := e.next, next := S e.sid v }) := by
+  induction l with
+  | nil => simp [wakeLoop]
+  | cons x xs ih =>
+    simp only [List.map_cons, List.nodup_cons] at hn
+    simp only [wakeLoop]
+    split
+    · intro e' he'; left; exact ⟨he', by simp⟩
+    · intro e' he'
+      rcases List.mem_cons.1 he' with rfl | he''
+      · right; exact ⟨x, List.mem_cons_self, rfl⟩
+      · rcases ih hn.2 e' he'' with ⟨hm, hne⟩ | ⟨e, he, rfl⟩
+        · left
+          refine ⟨List.mem_cons_of_mem _ hm, ?_⟩
+          intro r hr
+          rcases List.mem_cons.1 hr with rfl | hr'
+          · intro heq
+            exact hn.1 (heq ▸ List.mem_map_of_mem hm)
+          · exact hne r hr'
+        · right; exact ⟨e, List.mem_cons_of_mem _ he, rfl⟩
+
+theorem invB_step {S : Scheds} {s s' : State} {l : Label} (hA : InvA s) (hB : InvB S s)
+    (h : step S s l = some s') : InvB S s' := by
+  cases l with
+  | add sid =>
+    rcases step_add_inv h with ⟨hr, hp, rfl⟩ | ⟨hr, rfl⟩
+    · obtain ⟨tm, hpc⟩ := isParked_iff.1 hp
+      exact invB_frame hB rfl (fun e he => he) (Nat.le_refl _) (by simp [hpc, live])
+    · obtain ⟨b1, b2, b3, b4, b5⟩ := hB
+      have hoff : s.pc = .off := by
+        have := hA.run_pc; simp [hr] at this; exact this
+      have hlt : ∀ r ∈ s.log, r.id < s.nextID + 1 := fun r hr => Nat.lt_succ_of_le (hA.log_ids r hr)
+      refine ⟨b1, b2, ?_, ?_, ?_⟩
+      · intro e he r hr'
+        simp only [List.mem_append, List.mem_singleton] at he
+        rcases he with he | rfl
+        · exact b3 e he r hr'
+        · simp only [lastRec_none_of_lt hlt] at hr'; cases hr'
+      · intro hl; simp [hoff, live] at hl
+      · intro e he
+        simp only [List.mem_append, List.mem_singleton] at he
+        rcases he with he | rfl
+        · exact b5 e he
+        · simp only [lastRunAct_zero_of_lt hlt]
+  | remove id =>
+    rcases step_remove_inv h with ⟨hr, hp, rfl⟩ | ⟨hr, rfl⟩
+    · obtain ⟨tm, hpc⟩ := isParked_iff.1 hp
+      exact invB_frame hB rfl (fun e he => (List.mem_filter.1 he).1) (Nat.le_refl _) (by simp [hpc, live])
+    · exact invB_frame hB rfl (fun e he => (List.mem_filter.1 he).1) (Nat.le_refl _) (fun x => x)
+  | snapshot =>
+    obtain ⟨rfl, _⟩ := step_snapshot_inv h
+    exact hB
+  | start =>
+    rcases step_start_inv h with ⟨hr, rfl⟩ | ⟨hr, rfl⟩
+    · exact hB
+    · exact invB_frame hB rfl (fun e he => he) (Nat.le_refl _) (by simp [live])
+  | stop =>
+    rcases step_stop_inv h with ⟨hr, hp, rfl⟩ | ⟨hr, rfl⟩
+    · exact invB_frame hB rfl (fun e he => he) (Nat.le_refl _) (by simp [live])
+    · exact invB_frame hB rfl (fun e he => he) (Nat.le_refl _) (fun x => x)
+  | advance t =>
+    obtain ⟨hle, ⟨tm, hpc, rfl⟩ | ⟨hpc, rfl⟩⟩ := step_advance_inv h
+    · exact invB_frame hB rfl (fun e he => he) hle (by simp [hpc, live])
+    · exact invB_frame hB rfl (fun e he => he) hle (fun x => x)
+  | boot =>
+    obtain ⟨hpc, rfl⟩ := step_boot_inv h
+    obtain ⟨b1, b2, b3, b4, b5⟩ := hB
+    have hids : (s.entries.map (fun e => ({ e with next := S e.sid s.clock } : Entry))).map (·.id)
+        = s.entries.map (·.id) := by simp [Function.comp_def]
+    have hnd : ((s.entries.map (fun e => ({ e with next := S e.sid s.clock } : Entry))).map (·.id)).Nodup := by
+      rw [hids]; exact hA.nodup
+    refine ⟨?_, ?_, ?_, ?_, ?_⟩
+    · refine chainOK_map_append S (schedRec s.clock) (fun e => rfl) _ _ hnd b1 ?_
+      intro e' he'
+      obtain ⟨e, he, rfl⟩ := List.mem_map.1 he'
+      refine ⟨rfl, ?_⟩
+      intro p hp
+      exact ⟨b3 e he p hp, b2 p (lastRec_mem hp).1⟩
+    · intro r hr
+      rcases List.mem_append.1 hr with hr | hr
+      · obtain ⟨e, _, rfl⟩ := List.mem_map.1 hr
+        simp
+      · exact b2 r hr
+    · intro e' he' r hr
+      dsimp only at he' hr
+      rw [lastRec_map_append (schedRec s.clock) (fun e => rfl), find_id_of_nodup hnd he'] at hr
+      cases hr; rfl
+    · intro _ e' he'
+      dsimp only at he' ⊢
+      rw [lastRec_map_append (schedRec s.clock) (fun e => rfl), find_id_of_nodup hnd he']
+      refine ⟨_, rfl, ?_⟩
+      obtain ⟨e, he, rfl⟩ := List.mem_map.1 he'
+      rfl
+    · intro e' he'
+      dsimp only at he' ⊢
+      rw [lastRunAct_scheds]
+      obtain ⟨e, he, rfl⟩ := List.mem_map.1 he'
+      exact b5 e he
+  | refresh =>
+    rcases step_refresh_inv h with ⟨hpc, rfl⟩ | ⟨id, sid, hpc, rfl⟩
+    · exact invB_frame hB rfl (fun e he => he) (Nat.le_refl _) (by simp [hpc, live])
+    · obtain ⟨b1, b2, b3, b4, b5⟩ := hB
+      obtain ⟨hid, hlt, hlog⟩ := hA.pend id sid hpc
+      have hlive : live s.pc = true := by simp [hpc, live]
+      refine ⟨?_, ?_, ?_, ?_, ?_⟩
+      · refine ⟨?_, b1⟩
+        simp only [schedRec_id, lastRec_none_of_lt hlog]
+        exact ⟨rfl, fun p hp => by cases hp⟩
+      · intro r hr
+        rcases List.mem_cons.1 hr with rfl | hr
+        · simp
+        · exact b2 r hr
+      · intro e he r hr
+        dsimp only at he hr
+        rw [lastRec_cons] at hr
+        simp only [List.mem_append, List.mem_singleton] at he
+        rcases he with he | rfl
+        · have hne : (id == e.id) = false := by have := hlt e he; simp; omega
+          simp only [schedRec_id, hne] at hr
+          exact b3 e he r hr
+        · simp only [schedRec_id, beq_self_eq_true, if_true] at hr
+          cases hr; rfl
+      · intro _ e he
+        dsimp only at he ⊢
+        rw [lastRec_cons]
+        simp only [List.mem_append, List.mem_singleton] at he
+        rcases he with he | rfl
+        · have hne : (id == e.id) = false := by have := hlt e he; simp; omega
+          simp only [schedRec_id, hne]
+          exact b4 hlive e he
+        · simp only [schedRec_id, beq_self_eq_true, if_true]
+          exact ⟨_, rfl, rfl⟩
+      · intro e he
+        dsimp only at he ⊢
+        rw [lastRunAct_cons]
+        simp only [schedRec_isRun, Bool.false_and]
+        simp only [List.mem_append, List.mem_singleton] at he
+        rcases he with he | rfl
+        · exact b5 e he
+        · simp [lastRunAct_zero_of_lt hlog]
+  | arm =>
+    obtain ⟨hpc, rfl⟩ := step_arm_inv h
+    exact invB_frame hB rfl (fun e he => (sortBT_perm _).mem_iff.1 he) (Nat.le_refl _) (by simp [hpc, live])
+  | wake =>
+    obtain ⟨tm, v, hpc, hf, rfl⟩ := step_wake_inv h
+    obtain ⟨b1, b2, b3, b4, b5⟩ := hB
+    have hlive : live s.pc = true := by simp [hpc, live]
+    have hv : v ≤ s.clock := hA.fired_le tm v hpc hf
+    have hsub := wakeLoop_ran_sublist S v s.entries
+    have hnd : ((wakeLoop S v s.entries).2.map (·.id)).Nodup := hA.nodup.sublist (hsub.map _)
+    have hspec := wakeLoop_spec (S := S) (v := v) hA.nodup
+    refine ⟨?_, ?_, ?_, ?_, ?_⟩
+    · refine chainOK_map_append S (runRec v s.clock) (fun e => rfl) _ _ hnd b1 ?_
+      intro e he
+      obtain ⟨hm, hnz, hle⟩ := wakeLoop_ran e he
+      obtain ⟨p, hp, hnext⟩ := b4 hlive e hm
+      exact ⟨p, hp, b3 e hm p hp, hnext, hnz, hle, hv⟩
+    · intro r hr
+      rcases List.mem_append.1 hr with hr | hr
+      · obtain ⟨e, _, rfl⟩ := List.mem_map.1 hr
+        simpa using hv
+      · exact b2 r hr
+    · intro e' he' r hr
+      dsimp only at he' hr
+      rw [lastRec_map_append (runRec v s.clock) (fun e => rfl)] at hr
+      rcases hspec e' he' with ⟨hm, hne⟩ | ⟨e, he, rfl⟩
+      · rw [find_id_none hne] at hr
+        exact b3 e' hm r hr
+      · rw [show ({ e with prev := e.next, next := S e.sid v } : Entry).id = e.id from rfl,
+          find_id_of_nodup hnd he] at hr
+        cases hr; rfl
+    · intro _ e' he'
+      dsimp only at he' ⊢
+      rw [lastRec_map_append (runRec v s.clock) (fun e => rfl)]
+      rcases hspec e' he' with ⟨hm, hne⟩ | ⟨e, he, rfl⟩
+      · rw [find_id_none hne]
+        exact b4 hlive e' hm
+      · rw [show ({ e with prev := e.next, next := S e.sid v } : Entry).id = e.id from rfl,
+          find_id_of_nodup hnd he]
+        exact ⟨_, rfl, rfl⟩
+    · intro e' he'
+      dsimp only at he' ⊢
+      rw [lastRunAct_runs]
+      rcases hspec e' he' with ⟨hm, hne⟩ | ⟨e, he, rfl⟩
+      · rw [find_id_none hne]
+        exact b5 e' hm
+      · rw [show ({ e with prev := e.next, next := S e.sid v } : Entry).id = e.id from rfl,
+          find_id_of_nodup hnd he]
+  | jobBegin i =>
+    obtain ⟨j, _, _, rfl⟩ := step_jobBegin_inv h
+    exact invB_frame hB rfl (fun e he => he) (Nat.le_refl _) (fun x => x)
+  | jobDone i =>
+    obtain ⟨j, c, _, _, rfl⟩ := step_jobDone_inv h
+    exact invB_frame hB rfl (fun e he => he) (Nat.le_refl _) (fun x => x)
+  | ctxWait k =>
+    obtain ⟨_, rfl⟩ := step_ctxWait_inv h
+    exact invB_frame hB rfl (fun e he => he) (Nat.le_refl _) (fun x => x)
+end Kit.CronSched
+
+namespace Kit.CronSched
+
+theorem reach_invA {S : Scheds} {s : State} (hr : Reach S s) : InvA s :=
+  inv_of_inductive (S := S) InvA invA_init (fun _ _ _ _ hA h => invA_step hA h) s hr
+
+theorem reach_invB {S : Scheds} {s : State} (hr : Reach S s) : InvB S s :=
+  inv_of_inductive (S := S) (fun s => InvB S s) (invB_init S)
+    (fun _ _ _ hr hB h => invB_step (reach_invA hr) hB h) s hr
+
+theorem lastRec_none_iff {id : Nat} {log : List Rec} :
+    lastRec id log = none ↔ ∀ r ∈ log, r.id ≠ id := by
+  unfold lastRec
+  rw [List.find?_eq_none]
+  simp
+
+/-- Along the chain of one entry the bases never decrease, and every launched activation is
+at most the basis of its own record. -/
+theorem chain_bounds {S : Scheds} (hS : WB S) {id : Nat} :
+    ∀ {log : List Rec}, ChainOK S log → ∀ p, lastRec id log = some p →
+      ∀ q ∈ log, q.id = id → q.basis ≤ p.basis ∧ (q.isRun = true → q.act ≤ p.basis) := by
+  intro log
+  induction log with
+  | nil => intro _ p hp; simp [lastRec] at hp
+  | cons r older ih =>
+    intro hc p hp q hq hqid
+    obtain ⟨hrok, hcold⟩ := hc
+    rw [lastRec_cons] at hp
+    by_cases hrid : r.id = id
+    · simp only [hrid, beq_self_eq_true, if_true, Option.some.injEq] at hp
+      subst hp
+      -- facts about r itself
+      have hself : r.isRun = true → r.act ≤ r.basis := by
+        intro hrun
+        cases r with
+        | sched => simp [Rec.isRun] at hrun
+        | run i sd a w c =>
+          obtain ⟨_, _, _, _, _, haw, _⟩ := hrok
+          simpa [Rec.act, Rec.basis] using haw
+      rcases List.mem_cons.1 hq with rfl | hq'
+      · exact ⟨Nat.le_refl _, hself⟩
+      · -- q is older: the previous record p' of this id exists
+        cases hp' : lastRec id older with
+        | none => exact absurd hqid (lastRec_none_iff.1 hp' q hq')
+        | some p' =>
+          obtain ⟨h1, h2⟩ := ih hcold p' hp' q hq' hqid
+          have hstep : p'.basis ≤ r.basis := by
+            rw [hrid, hp'] at hrok
+            cases r with
+            | sched i sd t a => exact (hrok.2 p' rfl).2
+            | run i sd a w c =>
+              obtain ⟨p2, hp2, _, ha, hnz, haw, _⟩ := hrok
+              cases hp2
+              show p'.basis ≤ w
+              rcases hS sd p'.basis with h0 | hlt
+              · exact absurd (ha.trans h0) hnz
+              · omega
+          exact ⟨Nat.le_trans h1 hstep, fun hr => Nat.le_trans (h2 hr) hstep⟩
+    · have hb : (r.id == id) = false := by simp [hrid]
+      simp only [hb] at hp
+      rcases List.mem_cons.1 hq with rfl | hq'
+      · exact absurd hqid hrid
+      · exact ih hcold p hp q hq' hqid
+
+/-- The activations launched for entry `id`, newest first. -/
+def acts (id : Nat) (log : List Rec) : List Nat :=
+  (log.filter (fun r => r.isRun && r.id == id)).map Rec.act
+
+theorem acts_decreasing {S : Scheds} (hS : WB S) (id : Nat) :
+    ∀ {log : List Rec}, ChainOK S log → (acts id log).Pairwise (· > ·) := by
+  intro log
+  induction log with
+  | nil => intro _; simp [acts]
+  | cons r older ih =>
+    intro hc
+    obtain ⟨hrok, hcold⟩ := hc
+    unfold acts
+    simp only [List.filter_cons]
+    cases hsel : (r.isRun && r.id == id)
+    · simpa [acts] using ih hcold
+    · simp only [if_true, List.map_cons, List.pairwise_cons]
+      refine ⟨?_, by simpa [acts] using ih hcold⟩
+      intro a' ha'
+      simp only [Bool.and_eq_true, beq_iff_eq] at hsel
+      obtain ⟨hrun, hrid⟩ := hsel
+      obtain ⟨q, hq, rfl⟩ := List.mem_map.1 ha'
+      obtain ⟨hqm, hqsel⟩ := List.mem_filter.1 hq
+      simp only [Bool.and_eq_true, beq_iff_eq] at hqsel
+      cases r with
+      | sched => simp [Rec.isRun] at hrun
+      | run i sd a w c =>
+        simp only [Rec.id] at hrid
+        subst hrid
+        obtain ⟨p, hp, _, ha, hnz, _, _⟩ := hrok
+        have := (chain_bounds hS hcold p hp q hqm hqsel.2).2 hqsel.1
+        show q.act < a
+        rcases hS sd p.basis with h0 | hlt
+        · exact absurd (ha.trans h0) hnz
+        · omega
+
+theorem chain_run_facts {S : Scheds} {id sid a w c : Nat} :
+    ∀ {log : List Rec}, ChainOK S log → Rec.run id sid a w c ∈ log →
+      a ≠ 0 ∧ a ≤ w ∧ w ≤ c ∧ ∃ older p, older.length < log.length ∧ lastRec id older = some p ∧
+        p.sid = sid ∧ a = S sid p.basis := by
+  intro log
+  induction log with
+  | nil => intro _ h; cases h
+  | cons r older ih =>
+    intro hc hm
+    obtain ⟨hrok, hcold⟩ := hc
+    rcases List.mem_cons.1 hm with rfl | hm'
+    · obtain ⟨p, hp, hs, ha, hnz, haw, hwc⟩ := hrok
+      exact ⟨hnz, haw, hwc, older, p, by simp, hp, hs, ha⟩
+    · obtain ⟨x, y, z, o, p, hl, rest⟩ := ih hcold hm'
+      exact ⟨x, y, z, o, p, by simp; omega, rest⟩
+end Kit.CronSched
+
+namespace Kit.CronSched
+
+/-- While no scheduler goroutine exists, only `start` can create one; nothing is launched. -/
+theorem off_step {S : Scheds} {s s' : State} {l : Label} (hoff : s.pc = .off)
+    (hrun : s.running = false) (hl : l ≠ .start) (h : step S s l = some s') :
+    s'.pc = .off ∧ s'.running = false ∧ s'.log = s.log ∧ s'.jobs.length ≤ s.jobs.length := by
+  cases l with
+  | add sid =>
+    rcases step_add_inv h with ⟨hr, _, _⟩ | ⟨_, rfl⟩
+    · simp [hrun] at hr
+    · exact ⟨hoff, hrun, rfl, Nat.le_refl _⟩
+  | remove id =>
+    rcases step_remove_inv h with ⟨hr, _, _⟩ | ⟨_, rfl⟩
+    · simp [hrun] at hr
+    · exact ⟨hoff, hrun, rfl, Nat.le_refl _⟩
+  | snapshot => obtain ⟨rfl, _⟩ := step_snapshot_inv h; exact ⟨hoff, hrun, rfl, Nat.le_refl _⟩
+  | start => exact absurd rfl hl
+  | stop =>
+    rcases step_stop_inv h with ⟨hr, _, _⟩ | ⟨_, rfl⟩
+    · simp [hrun] at hr
+    · exact ⟨hoff, hrun, rfl, Nat.le_refl _⟩
+  | advance t =>
+    obtain ⟨_, ⟨tm, hpc, _⟩ | ⟨_, rfl⟩⟩ := step_advance_inv h
+    · rw [hoff] at hpc; cases hpc
+    · exact ⟨hoff, hrun, rfl, Nat.le_refl _⟩
+  | boot => obtain ⟨hpc, _⟩ := step_boot_inv h; rw [hoff] at hpc; cases hpc
+  | refresh =>
+    rcases step_refresh_inv h with ⟨hpc, _⟩ | ⟨_, _, hpc, _⟩ <;> (rw [hoff] at hpc; cases hpc)
+  | arm => obtain ⟨hpc, _⟩ := step_arm_inv h; rw [hoff] at hpc; cases hpc
+  | wake => obtain ⟨_, _, hpc, _⟩ := step_wake_inv h; rw [hoff] at hpc; cases hpc
+  | jobBegin i =>
+    obtain ⟨j, _, _, rfl⟩ := step_jobBegin_inv h
+    exact ⟨hoff, hrun, rfl, by simp⟩
+  | jobDone i =>
+    obtain ⟨j, c, _, _, rfl⟩ := step_jobDone_inv h
+    exact ⟨hoff, hrun, rfl, by simp [List.length_eraseIdx]; split <;> omega⟩
+  | ctxWait k =>
+    obtain ⟨_, rfl⟩ := step_ctxWait_inv h
+    exact ⟨hoff, hrun, rfl, Nat.le_refl _⟩
+
+/-- Entry `id` has been issued and is neither in the entry list nor on its way into it. -/
+def NoEntry (id : Nat) (s : State) : Prop :=
+  id ≤ s.nextID ∧ (∀ e ∈ s.entries, e.id ≠ id) ∧
+    (∀ i sid, s.pc = .refresh (some (i, sid)) → i ≠ id)
+
+theorem noEntry_step {S : Scheds} {s s' : State} {l : Label} {id : Nat} (hA : InvA s)
+    (hN : NoEntry id s) (h : step S s l = some s') :
+    NoEntry id s' ∧ ∃ new, s'.log = new ++ s.log ∧ ∀ r ∈ new, r.id ≠ id := by
+  obtain ⟨n1, n2, n3⟩ := hN
+  cases l with
+  | add sid =>
+    rcases step_add_inv h with ⟨_, _, rfl⟩ | ⟨_, rfl⟩
+    · refine ⟨⟨Nat.le_succ_of_le n1, n2, ?_⟩, [], rfl, by simp⟩
+      intro i sd hpc; simp at hpc; omega
+    · refine ⟨⟨Nat.le_succ_of_le n1, ?_, n3⟩, [], rfl, by simp⟩
+      intro e he
+      simp only [List.mem_append, List.mem_singleton] at he
+      rcases he with he | rfl
+      · exact n2 e he
+      · simp; omega
+  | remove id' =>
+    rcases step_remove_inv h with ⟨_, _, rfl⟩ | ⟨_, rfl⟩
+    · exact ⟨⟨n1, fun e he => n2 e (List.mem_filter.1 he).1, by simp⟩, [], rfl, by simp⟩
+    · exact ⟨⟨n1, fun e he => n2 e (List.mem_filter.1 he).1, n3⟩, [], rfl, by simp⟩
+  | snapshot => obtain ⟨rfl, _⟩ := step_snapshot_inv h; exact ⟨⟨n1, n2, n3⟩, [], rfl, by simp⟩
+  | start =>
+    rcases step_start_inv h with ⟨_, rfl⟩ | ⟨_, rfl⟩
+    · exact ⟨⟨n1, n2, n3⟩, [], rfl, by simp⟩
+    · exact ⟨⟨n1, n2, by simp⟩, [], rfl, by simp⟩
+  | stop =>
+    rcases step_stop_inv h with ⟨_, _, rfl⟩ | ⟨_, rfl⟩
+    · exact ⟨⟨n1, n2, by simp⟩, [], rfl, by simp⟩
+    · exact ⟨⟨n1, n2, n3⟩, [], rfl, by simp⟩
+  | advance t =>
+    obtain ⟨_, ⟨tm, hpc, rfl⟩ | ⟨_, rfl⟩⟩ := step_advance_inv h
+    · exact ⟨⟨n1, n2, by simp⟩, [], rfl, by simp⟩
+    · exact ⟨⟨n1, n2, n3⟩, [], rfl, by simp⟩
+  | boot =>
+    obtain ⟨_, rfl⟩ := step_boot_inv h
+    refine ⟨⟨n1, ?_, by simp⟩, _, rfl, ?_⟩
+    · intro e' he'
+      obtain ⟨e, he, rfl⟩ := List.mem_map.1 he'
+      exact n2 e he
+    · intro r hr
+      obtain ⟨e', he', rfl⟩ := List.mem_map.1 hr
+      obtain ⟨e, he, rfl⟩ := List.mem_map.1 he'
+      exact n2 e he
+  | refresh =>
+    rcases step_refresh_inv h with ⟨_, rfl⟩ | ⟨i, sd, hpc, rfl⟩
+    · exact ⟨⟨n1, n2, by simp⟩, [], rfl, by simp⟩
+    · have hne := n3 i sd hpc
+      refine ⟨⟨n1, ?_, by simp⟩, [_], rfl, ?_⟩
+      · intro e he
+        simp only [List.mem_append, List.mem_singleton] at he
+        rcases he with he | rfl
+        · exact n2 e he
+        · exact hne
+      · intro r hr
+        simp only [List.mem_singleton] at hr
+        subst hr; exact hne
+  | arm =>
+    obtain ⟨_, rfl⟩ := step_arm_inv h
+    exact ⟨⟨n1, fun e he => n2 e ((sortBT_perm _).mem_iff.1 he), by simp⟩, [], rfl, by simp⟩
+  | wake =>
+    obtain ⟨tm, v, _, _, rfl⟩ := step_wake_inv h
+    refine ⟨⟨n1, ?_, by simp⟩, _, rfl, ?_⟩
+    · intro e' he'
+      obtain ⟨e, he, hid⟩ := mem_wakeLoop_id he'
+      rw [← hid]; exact n2 e he
+    · intro r hr
+      obtain ⟨e, he, rfl⟩ := List.mem_map.1 hr
+      exact n2 e ((wakeLoop_ran_sublist S v s.entries).subset he)
+  | jobBegin i =>
+    obtain ⟨j, _, _, rfl⟩ := step_jobBegin_inv h
+    exact ⟨⟨n1, n2, n3⟩, [], rfl, by simp⟩
+  | jobDone i =>
+    obtain ⟨j, c, _, _, rfl⟩ := step_jobDone_inv h
+    exact ⟨⟨n1, n2, n3⟩, [], rfl, by simp⟩
+  | ctxWait k =>
+    obtain ⟨_, rfl⟩ := step_ctxWait_inv h
+    exact ⟨⟨n1, n2, n3⟩, [], rfl, by simp⟩
+end Kit.CronSched
+
+namespace Kit.CronSched
+
+/-- Job invariant: a launched activation is a real instant that the loop's `now` had reached,
+the clock had reached `now`, and a begun job read a clock value at or after it. -/
+abbrev InvJ (s : State) : Prop :=
+  ∀ j ∈ s.jobs, j.act ≠ 0 ∧ j.act ≤ j.wake ∧ j.wake ≤ s.clock ∧ ∀ c, j.st = .begun c → j.wake ≤ c
+
+theorem invJ_step {S : Scheds} {s s' : State} {l : Label} (hA : InvA s) (hJ : InvJ s)
+    (h : step S s l = some s') : InvJ s' := by
+  have frame : ∀ {s' : State}, s'.jobs = s.jobs → s.clock ≤ s'.clock → InvJ s' := by
+    intro s' hj hc j hjm
+    rw [hj] at hjm
+    obtain ⟨a, b, c, d⟩ := hJ j hjm
+    exact ⟨a, b, Nat.le_trans c hc, d⟩
+  cases l with
+  | add sid =>
+    rcases step_add_inv h with ⟨_, _, rfl⟩ | ⟨_, rfl⟩ <;> exact frame rfl (Nat.le_refl _)
+  | remove id =>
+    rcases step_remove_inv h with ⟨_, _, rfl⟩ | ⟨_, rfl⟩ <;> exact frame rfl (Nat.le_refl _)
+  | snapshot => obtain ⟨rfl, _⟩ := step_snapshot_inv h; exact hJ
+  | start =>
+    rcases step_start_inv h with ⟨_, rfl⟩ | ⟨_, rfl⟩ <;> exact frame rfl (Nat.le_refl _)
+  | stop =>
+    rcases step_stop_inv h with ⟨_, _, rfl⟩ | ⟨_, rfl⟩ <;> exact frame rfl (Nat.le_refl _)
+  | advance t =>
+    obtain ⟨hle, ⟨tm, hpc, rfl⟩ | ⟨_, rfl⟩⟩ := step_advance_inv h <;> exact frame rfl hle
+  | boot => obtain ⟨_, rfl⟩ := step_boot_inv h; exact frame rfl (Nat.le_refl _)
+  | refresh =>
+    rcases step_refresh_inv h with ⟨_, rfl⟩ | ⟨_, _, _, rfl⟩ <;> exact frame rfl (Nat.le_refl _)
+  | arm => obtain ⟨_, rfl⟩ := step_arm_inv h; exact frame rfl (Nat.le_refl _)
+  | wake =>
+    obtain ⟨tm, v, hpc, hf, rfl⟩ := step_wake_inv h
+    intro j hj
+    rcases List.mem_append.1 hj with hj | hj
+    · exact hJ j hj
+    · obtain ⟨e, he, rfl⟩ := List.mem_map.1 hj
+      obtain ⟨_, hnz, hle⟩ := wakeLoop_ran e he
+      exact ⟨hnz, hle, hA.fired_le tm v hpc hf, by intro c hc; cases hc⟩
+  | jobBegin i =>
+    obtain ⟨j0, hj0, _, rfl⟩ := step_jobBegin_inv h
+    intro j hj
+    rcases List.mem_or_eq_of_mem_set hj with hj | rfl
+    · exact hJ j hj
+    · obtain ⟨a, b, c, _⟩ := hJ j0 (List.mem_of_getElem? hj0)
+      exact ⟨a, b, c, by intro c' hc'; cases hc'; exact c⟩
+  | jobDone i =>
+    obtain ⟨j0, c, _, _, rfl⟩ := step_jobDone_inv h
+    intro j hj
+    exact hJ j (List.mem_of_mem_eraseIdx hj)
+  | ctxWait k => obtain ⟨_, rfl⟩ := step_ctxWait_inv h; exact frame rfl (Nat.le_refl _)
+
+theorem reach_invJ {S : Scheds} {s : State} (hr : Reach S s) : InvJ s :=
+  inv_of_inductive (S := S) InvJ (fun t0 => by intro j hj; simp [init] at hj)
+    (fun _ _ _ hr hJ h => invJ_step (reach_invA hr) hJ h) s hr
+
+/-- Context invariant: a goroutine blocked in `jobWaiter.Wait()` implies an outstanding job. -/
+abbrev InvC (s : State) : Prop := ∀ k : Nat, s.ctxs[k]? = some CtxSt.waiting → s.jobs ≠ []
+
+theorem releaseWaiting_no_waiting (cs : List CtxSt) (k : Nat) :
+    (releaseWaiting cs)[k]? ≠ some CtxSt.waiting := by
+  unfold releaseWaiting
+  simp only [List.getElem?_map]
+  cases cs[k]? with
+  | none => simp
+  | some c => cases c <;> simp
+
+theorem invC_step {S : Scheds} {s s' : State} {l : Label} (hC : InvC s)
+    (h : step S s l = some s') : InvC s' := by
+  have frame : ∀ {s' : State}, s'.ctxs = s.ctxs → (s.jobs ≠ [] → s'.jobs ≠ []) → InvC s' := by
+    intro s' hc hj k hk
+    rw [hc] at hk
+    exact hj (hC k hk)
+  cases l with
+  | add sid =>
+    rcases step_add_inv h with ⟨_, _, rfl⟩ | ⟨_, rfl⟩ <;> exact frame rfl id
+  | remove id' =>
+    rcases step_remove_inv h with ⟨_, _, rfl⟩ | ⟨_, rfl⟩ <;> exact frame rfl id
+  | snapshot => obtain ⟨rfl, _⟩ := step_snapshot_inv h; exact hC
+  | start =>
+    rcases step_start_inv h with ⟨_, rfl⟩ | ⟨_, rfl⟩ <;> exact frame rfl id
+  | stop =>
+    have app : ∀ k : Nat, (s.ctxs ++ [CtxSt.created])[k]? = some CtxSt.waiting → s.ctxs[k]? = some CtxSt.waiting := by
+      intro k hk
+      rw [List.getElem?_append] at hk
+      split at hk
+      · exact hk
+      · cases hk' : ([CtxSt.created])[k - s.ctxs.length]? with
+        | none => rw [hk'] at hk; cases hk
+        | some c =>
+          rw [hk'] at hk
+          have : c = .created := by
+            have := List.mem_of_getElem? hk'
+            simpa using this
+          subst this; cases hk
+    rcases step_stop_inv h with ⟨_, _, rfl⟩ | ⟨_, rfl⟩ <;> exact fun k hk => hC k (app k hk)
+  | advance t =>
+    obtain ⟨_, ⟨tm, hpc, rfl⟩ | ⟨_, rfl⟩⟩ := step_advance_inv h <;> exact frame rfl id
+  | boot => obtain ⟨_, rfl⟩ := step_boot_inv h; exact frame rfl id
+  | refresh =>
+    rcases step_refresh_inv h with ⟨_, rfl⟩ | ⟨_, _, _, rfl⟩ <;> exact frame rfl id
+  | arm => obtain ⟨_, rfl⟩ := step_arm_inv h; exact frame rfl id
+  | wake =>
+    obtain ⟨tm, v, _, _, rfl⟩ := step_wake_inv h
+    exact frame rfl (by intro hne; simp [hne])
+  | jobBegin i =>
+    obtain ⟨j0, hj0, _, rfl⟩ := step_jobBegin_inv h
+    exact frame rfl (by intro hne; simpa using hne)
+  | jobDone i =>
+    obtain ⟨j0, c, _, _, rfl⟩ := step_jobDone_inv h
+    intro k hk
+    dsimp only at hk ⊢
+    split at hk
+    · exact absurd hk (releaseWaiting_no_waiting _ _)
+    · rename_i hne
+      intro he; rw [he] at hne; simp at hne
+  | ctxWait k0 =>
+    obtain ⟨_, rfl⟩ := step_ctxWait_inv h
+    intro k hk
+    dsimp only at hk ⊢
+    rw [List.getElem?_set] at hk
+    split at hk
+    · split at hk
+      · split at hk
+        · cases hk
+        · rename_i hne
+          intro he; rw [he] at hne; simp at hne
+      · cases hk
+    · exact hC k hk
+
+theorem reach_invC {S : Scheds} {s : State} (hr : Reach S s) : InvC s :=
+  inv_of_inductive (S := S) InvC (fun t0 => by intro k hk; simp [init] at hk)
+    (fun _ _ _ _ hC h => invC_step hC h) s hr
+end Kit.CronSched
+
+namespace Kit.CronSched
+
+/-- `byTime` order as a relation: `b` may stand after `a`. -/
+def le' (a b : Entry) : Prop := b.next = 0 ∨ (a.next ≠ 0 ∧ a.next ≤ b.next)
+
+def SortedBT (l : List Entry) : Prop := l.Pairwise le'
+
+theorem less_le' {e x : Entry} (h : less e x = true) : le' e x := by
+  unfold less at h
+  unfold le'
+  split at h
+  · cases h
+  · split at h
+    · left; assumption
+    · right; simp at h; omega
+
+theorem not_less_le' {e x : Entry} (h : less e x = false) : le' x e := by
+  unfold less at h
+  unfold le'
+  split at h
+  · left; assumption
+  · split at h
+    · cases h
+    · right; simp at h; omega
+
+theorem le'_trans {a b c : Entry} (h1 : le' a b) (h2 : le' b c) : le' a c := by
+  unfold le' at *
+  omega
+
+theorem insertBT_sorted (e : Entry) : ∀ {l : List Entry}, SortedBT l → SortedBT (insertBT e l) := by
+  intro l
+  induction l with
+  | nil => intro _; simp [insertBT, SortedBT]
+  | cons x xs ih =>
+    intro hs
+    unfold SortedBT at hs ⊢
+    rw [List.pairwise_cons] at hs
+    simp only [insertBT]
+    cases hl : less e x
+    · simp only [Bool.false_eq_true, if_false, List.pairwise_cons]
+      refine ⟨?_, ih hs.2⟩
+      intro y hy
+      rcases List.mem_cons.1 ((insertBT_perm e xs).mem_iff.1 hy) with rfl | hy'
+      · exact not_less_le' hl
+      · exact hs.1 y hy'
+    · simp only [if_true, List.pairwise_cons]
+      refine ⟨?_, hs.1, hs.2⟩
+      intro y hy
+      rcases List.mem_cons.1 hy with rfl | hy'
+      · exact less_le' hl
+      · exact le'_trans (less_le' hl) (hs.1 y hy')
+
+theorem sortBT_sorted (l : List Entry) : SortedBT (sortBT l) := by
+  induction l with
+  | nil => simp [sortBT, SortedBT]
+  | cons e es ih => exact insertBT_sorted e ih
+
+/-- On a list ordered by `byTime` the wake-up loop (which stops at the first entry that is not
+due) starts every due entry. -/
+theorem wakeLoop_all_due {S : Scheds} {v : Nat} :
+    ∀ {l : List Entry}, SortedBT l → ∀ e ∈ l, e.next ≠ 0 → e.next ≤ v → e ∈ (wakeLoop S v l).2 := by
+  intro l
+  induction l with
+  | nil => intro _ e he; cases he
+  | cons x xs ih =>
+    intro hs e he hnz hle
+    unfold SortedBT at hs
+    rw [List.pairwise_cons] at hs
+    simp only [wakeLoop]
+    split
+    · rename_i hbreak
+      rcases List.mem_cons.1 he with rfl | he'
+      · omega
+      · have := hs.1 e he'
+        unfold le' at this
+        omega
+    · rcases List.mem_cons.1 he with rfl | he'
+      · exact List.mem_cons_self
+      · exact List.mem_cons_of_mem _ (ih hs.2 e he' hnz hle)
+
+/-- Timer invariant while the loop is blocked in its `select`. -/
+def TimerOK (s : State) : Prop :=
+  ∀ tmo, s.pc = .parked tmo → SortedBT s.entries ∧
+    match tmo with
+    | none => ∀ e ∈ s.entries, e.next = 0
+    | some tm => tm.armedAt ≤ s.clock ∧ s.now ≤ tm.armedAt ∧ ∃ e ∈ s.entries, e.next ≠ 0 ∧
+        (∀ x ∈ s.entries, x.next = 0 ∨ e.next ≤ x.next) ∧
+        tm.deadline + s.now = tm.armedAt + e.next ∧
+        (tm.fired = none → s.clock < tm.deadline) ∧ (∀ v, tm.fired = some v → tm.deadline ≤ v)
+
+theorem timerOK_frame {s s' : State} (hT : TimerOK s) (h1 : s'.pc = s.pc)
+    (h2 : s'.entries = s.entries) (h3 : s'.now = s.now) (h4 : s'.clock = s.clock) : TimerOK s' := by
+  intro tmo hpc
+  rw [h1] at hpc
+  have := hT tmo hpc
+  rw [h2, h3, h4]
+  exact this
+
+theorem timerOK_step {S : Scheds} {s s' : State} {l : Label} (hA : InvA s) (hT : TimerOK s)
+    (h : step S s l = some s') : TimerOK s' := by
+  have hoff : s.running = false → s.pc = .off := by
+    intro hr; have := hA.run_pc; simp [hr] at this; exact this
+  cases l with
+  | add sid =>
+    rcases step_add_inv h with ⟨_, _, rfl⟩ | ⟨hr, rfl⟩
+    · intro tmo hpc; cases hpc
+    · intro tmo hpc; rw [show _ = s.pc from rfl, hoff hr] at hpc; cases hpc
+  | remove id =>
+    rcases step_remove_inv h with ⟨_, _, rfl⟩ | ⟨hr, rfl⟩
+    · intro tmo hpc; cases hpc
+    · intro tmo hpc; rw [show _ = s.pc from rfl, hoff hr] at hpc; cases hpc
+  | snapshot => obtain ⟨rfl, _⟩ := step_snapshot_inv h; exact hT
+  | start =>
+    rcases step_start_inv h with ⟨_, rfl⟩ | ⟨_, rfl⟩
+    · exact hT
+    · intro tmo hpc; cases hpc
+  | stop =>
+    rcases step_stop_inv h with ⟨_, _, rfl⟩ | ⟨_, rfl⟩
+    · intro tmo hpc; cases hpc
+    · exact timerOK_frame hT rfl rfl rfl rfl
+  | advance t =>
+    obtain ⟨hle, ⟨tm, hpc, rfl⟩ | ⟨hne, rfl⟩⟩ := step_advance_inv h
+    · intro tmo hpc'
+      simp only [Pc.parked.injEq] at hpc'
+      subst hpc'
+      obtain ⟨hs, ha, hn, e, he, hnz, hmin, hd, hf1, hf2⟩ := hT _ hpc
+      refine ⟨hs, ?_⟩
+      show (tm.tick t).armedAt ≤ t ∧ s.now ≤ (tm.tick t).armedAt ∧ _
+      unfold Timer.tick
+      cases hfired : tm.fired with
+      | some v0 =>
+        simp only
+        exact ⟨Nat.le_trans ha hle, hn, e, he, hnz, hmin, hd, by simp [hfired], by simpa [hfired] using hf2⟩
+      | none =>
+        simp only
+        split
+        · rename_i hdl
+          exact ⟨Nat.le_trans ha hle, hn, e, he, hnz, hmin, hd, by simp, by intro v hv; simp at hv; subst hv; exact hdl⟩
+        · rename_i hdl
+          exact ⟨Nat.le_trans ha hle, hn, e, he, hnz, hmin, hd, by intro _; omega, by simp [hfired]⟩
+    · intro tmo hpc
+      cases tmo with
+      | some tm => exact absurd hpc (hne tm)
+      | none => exact hT none hpc
+  | boot => obtain ⟨_, rfl⟩ := step_boot_inv h; intro tmo hpc; cases hpc
+  | refresh =>
+    rcases step_refresh_inv h with ⟨_, rfl⟩ | ⟨_, _, _, rfl⟩ <;> (intro tmo hpc; cases hpc)
+  | arm =>
+    obtain ⟨_, rfl⟩ := step_arm_inv h
+    intro tmo hpc
+    simp only [Pc.parked.injEq] at hpc
+    have hsorted := sortBT_sorted s.entries
+    refine ⟨hsorted, ?_⟩
+    subst hpc
+    dsimp only
+    generalize sortBT s.entries = es at hsorted
+    cases es with
+    | nil => simp [armTimer]
+    | cons e rest =>
+      unfold SortedBT at hsorted
+      rw [List.pairwise_cons] at hsorted
+      by_cases hz : e.next = 0
+      · simp only [armTimer, hz, if_true]
+        intro x hx
+        rcases List.mem_cons.1 hx with rfl | hx'
+        · exact hz
+        · have := hsorted.1 x hx'; unfold le' at this; omega
+      · simp only [armTimer, hz, if_false]
+        have hnow := hA.now_le
+        refine ⟨Nat.le_refl _, hnow, e, List.mem_cons_self, hz, ?_, by omega, ?_, ?_⟩
+        · intro x hx
+          rcases List.mem_cons.1 hx with rfl | hx'
+          · right; exact Nat.le_refl _
+          · have := hsorted.1 x hx'; unfold le' at this; omega
+        · intro hf; split at hf
+          · cases hf
+          · omega
+        · intro v hv; split at hv
+          · simp at hv; omega
+          · cases hv
+  | wake => obtain ⟨_, _, _, _, rfl⟩ := step_wake_inv h; intro tmo hpc; cases hpc
+  | jobBegin i =>
+    obtain ⟨j, _, _, rfl⟩ := step_jobBegin_inv h
+    exact timerOK_frame hT rfl rfl rfl rfl
+  | jobDone i =>
+    obtain ⟨j, c, _, _, rfl⟩ := step_jobDone_inv h
+    exact timerOK_frame hT rfl rfl rfl rfl
+  | ctxWait k =>
+    obtain ⟨_, rfl⟩ := step_ctxWait_inv h
+    exact timerOK_frame hT rfl rfl rfl rfl
+
+theorem reach_timerOK {S : Scheds} {s : State} (hr : Reach S s) : TimerOK s :=
+  inv_of_inductive (S := S) TimerOK (fun t0 => by intro tmo hpc; simp [init] at hpc)
+    (fun _ _ _ hr hT h => timerOK_step (reach_invA hr) hT h) s hr
+end Kit.CronSched
+
+namespace Kit.CronSched
+
+theorem wakeLoop_updates {S : Scheds} {v : Nat} {e : Entry} :
+    ∀ {l : List Entry}, e ∈ (wakeLoop S v l).2 →
+      ({ e with prev := e.next, next := S e.sid v } : Entry) ∈ (wakeLoop S v l).1 := by
+  intro l
+  induction l with
+  | nil => intro h; simp [wakeLoop] at h
+  | cons x xs ih =>
+    simp only [wakeLoop]
+    split
+    · intro h; cases h
+    · intro h
+      rcases List.mem_cons.1 h with rfl | h'
+      · exact List.mem_cons_self
+      · exact List.mem_cons_of_mem _ (ih h')
+
+end Kit.CronSched
